@@ -559,6 +559,15 @@ func TestC17_Lengths(t *testing.T) {
 		for h := 1; h <= 3; h++ {
 			c17.one(t, c17Case{Acc: a.name, State: 1, Hdr: h, Bg: ^uint64(0)})
 		}
+		if a.code == 119 {
+			// search lists longer than one option instance: pointers to offsets around the powers of two, and many
+			// short names that add up far beyond 255 octets
+			for _, lb := range append(pointerOffsetBuffers(), labelCumulativeBuffers()...) {
+				if len(lb) <= 4200 {
+					c17.one(t, c17Case{Acc: a.name, State: 0, Val: lb})
+				}
+			}
+		}
 	}
 	c17.rec.Class("length-enumeration 0..64")
 }
